@@ -1259,3 +1259,20 @@ func IsLoopBound(l Lit) bool {
 	}
 	return false
 }
+
+// LitsInter returns the guard literals of block b plus, when b's function is an
+// in-target helper with exactly one static call site, the literals guarding that
+// call site (one level up). Extracting a guarded block into a helper therefore
+// keeps the outer guards visible.
+func (p *Prog) LitsInter(b *ssa.BasicBlock) []Lit {
+	out := Lits(Guards(b))
+	f := b.Parent()
+	if f == nil {
+		return out
+	}
+	sites := p.Callers(f)
+	if len(sites) == 1 && f.Parent() == nil {
+		out = append(out, Lits(Guards(sites[0].Block()))...)
+	}
+	return out
+}
